@@ -728,10 +728,11 @@ def containment(chk, P, prefix):
     for nm in ("notify_on_flush", "notify_on_take"):
         def w(nm=nm):
             b = P.body("emit_batcher::Watchers::%s" % nm)
-            tk = b.calls_to(path="core::mem::take")
+            tk = [c for c in b.calls(normal_only=True) if c.callee.get("path") in ("core::mem::take", "core::mem::replace") or
+                  (c.callee.get("name") == "drain" and "Vec" in (c.callee.get("path") or ""))]
             fld = "on_flush" if nm == "notify_on_flush" else "on_take"
-            if len(tk) != 1 or mir.o_field_path(b.origin(tk[0].args[0]))[1] != [fld]:
-                return False, "%s must drain self.%s with mem::take (each callback fires exactly once)" % (nm, fld), [], b.span
+            if len(tk) != 1 or mir.o_field_path(b.origin(tk[0].args[0], through_calls=("deref", "deref_mut")))[1][-1:] != [fld]:
+                return False, "%s must take its callbacks out of self.%s (mem::take / drain) before running them, so each fires exactly once" % (nm, fld), [], b.span
             cu = b.calls_to(path="std::panic::catch_unwind")
             if len(cu) != 1:
                 return False, "each watcher must be invoked inside catch_unwind", [], b.span
